@@ -85,4 +85,42 @@ def counterBody (c : Option Nat) (batch : List Int) : Option Nat × Nat :=
 def prevLastBody (c : Option Int) (batch : List Int) : Option Int × Option Int :=
   (lastOp batch, c)
 
+/-! `use::state(|l| <Optional initial>)` (`Optional::create_source_with_initial`,
+`hydro_lang/src/live_collections/optional.rs`):
+`from_previous_tick.or(initial.filter_if(location.optional_first_tick(..).is_some()))` — the value
+deferred from the previous tick wins; the initial value is offered in the FIRST tick only, so a
+null stored by a slice is seen as null by the next one. -/
+
+/-- what the state hook of an `Optional` cycle with an initial value yields in one tick -/
+def optStateSource {σ : Type} (first : Bool) (fromPrev initial : Option σ) : Option σ :=
+  match fromPrev with
+  | some v => some v
+  | none => if first then initial else none
+
+/-- slices over an `Optional` state with an initial value: `first` = this is the first tick,
+`prev` = what the previous slice assigned (deferred by one tick; nothing before the first) -/
+def runSlicedInit {σ β ω : Type} (body : Option σ → β → Option σ × ω) (initial : Option σ) :
+    Bool → Option σ → List β → List ω
+  | _, _, [] => []
+  | first, prev, x :: xs =>
+    let c := optStateSource first prev initial
+    (body c x).2 :: runSlicedInit body initial false (body c x).1 xs
+
+/-- the state each of those slices sees -/
+def statesSeenInit {σ β ω : Type} (body : Option σ → β → Option σ × ω) (initial : Option σ) :
+    Bool → Option σ → List β → List (Option σ)
+  | _, _, [] => []
+  | first, prev, x :: xs =>
+    let c := optStateSource first prev initial
+    c :: statesSeenInit body initial false (body c x).1 xs
+
+def sumB (l : List Int) : Int := l.foldl (· + ·) 0
+
+/-- `state_opt_keep`: `use::state(|l| Optional::from(l.singleton(q!(100))))`,
+`slot = batch.fold(+).filter(> 0)`; the slice outputs the state it saw -/
+def optKeepInit : Option Int := some 100
+
+def optKeepBody (c : Option Int) (batch : List Int) : Option Int × Option Int :=
+  ((if 0 < sumB batch then some (sumB batch) else none), c)
+
 end HvHydro2
